@@ -87,6 +87,12 @@ def pyInt (s : String) : Py Int :=
   | some n => .ok (if (signSplit (stripBlanks s.toList)).1 then -(n : Int) else (n : Int))
   | none => .error .valueError
 
+/-- `s.startswith(c)` / `s.endswith(c)` for a one-character `c`, on the character list (kernel-reducible) -/
+def startsWithChar (s : String) (c : Char) : Bool := s.toList.head? == some c
+def endsWithChar (s : String) (c : Char) : Bool := s.toList.getLast? == some c
+/-- `s[1:-1]` -/
+def stripEnds (s : String) : String := String.ofList (s.toList.drop 1).dropLast
+
 def pyUpper (s : String) : String := s.toUpper
 
 end TelModel
